@@ -13,8 +13,9 @@ Definition inst (sg : subst) (a : atom) : fact := (tv sg (a_s a), tv sg (a_p a),
 Definition filter_ok (nv : N -> Z) (sg : subst) (f : fcond) : bool :=
   match f with
   | FNum x op z => cmp_num op (nv (sg x)) z
-  | FVarEq x y => N.eqb (sg x) (sg y)
-  | FVarNe x y => negb (N.eqb (sg x) (sg y))
+  | FVar x Eq y => N.eqb (sg x) (sg y)                 (* same term *)
+  | FVar x Ne y => negb (N.eqb (sg x) (sg y))
+  | FVar x op y => cmp_num op (nv (sg x)) (nv (sg y))   (* order comparison of the numeric values *)
   end.
 Definition filters_ok (nv : N -> Z) (sg : subst) (fs : list fcond) : bool := forallb (filter_ok nv sg) fs.
 
